@@ -1,21 +1,99 @@
 Lib/Base.vo Lib/Base.glob Lib/Base.v.beautified Lib/Base.required_vo: Lib/Base.v 
 Lib/Base.vio: Lib/Base.v 
 Lib/Base.vos Lib/Base.vok Lib/Base.required_vos: Lib/Base.v 
+Lib/Bytestr.vo Lib/Bytestr.glob Lib/Bytestr.v.beautified Lib/Bytestr.required_vo: Lib/Bytestr.v 
+Lib/Bytestr.vio: Lib/Bytestr.v 
+Lib/Bytestr.vos Lib/Bytestr.vok Lib/Bytestr.required_vos: Lib/Bytestr.v 
 Lib/Sort.vo Lib/Sort.glob Lib/Sort.v.beautified Lib/Sort.required_vo: Lib/Sort.v 
 Lib/Sort.vio: Lib/Sort.v 
 Lib/Sort.vos Lib/Sort.vok Lib/Sort.required_vos: Lib/Sort.v 
+Gen/Handlers.vo Gen/Handlers.glob Gen/Handlers.v.beautified Gen/Handlers.required_vo: Gen/Handlers.v 
+Gen/Handlers.vio: Gen/Handlers.v 
+Gen/Handlers.vos Gen/Handlers.vok Gen/Handlers.required_vos: Gen/Handlers.v 
+Gen/Spinnertabs.vo Gen/Spinnertabs.glob Gen/Spinnertabs.v.beautified Gen/Spinnertabs.required_vo: Gen/Spinnertabs.v 
+Gen/Spinnertabs.vio: Gen/Spinnertabs.v 
+Gen/Spinnertabs.vos Gen/Spinnertabs.vok Gen/Spinnertabs.required_vos: Gen/Spinnertabs.v 
+Gen/Streamtabs.vo Gen/Streamtabs.glob Gen/Streamtabs.v.beautified Gen/Streamtabs.required_vo: Gen/Streamtabs.v 
+Gen/Streamtabs.vio: Gen/Streamtabs.v 
+Gen/Streamtabs.vos Gen/Streamtabs.vok Gen/Streamtabs.required_vos: Gen/Streamtabs.v 
+Model/Reactor.vo Model/Reactor.glob Model/Reactor.v.beautified Model/Reactor.required_vo: Model/Reactor.v Lib/Base.vo
+Model/Reactor.vio: Model/Reactor.v Lib/Base.vio
+Model/Reactor.vos Model/Reactor.vok Model/Reactor.required_vos: Model/Reactor.v Lib/Base.vos
+Model/Router.vo Model/Router.glob Model/Router.v.beautified Model/Router.required_vo: Model/Router.v Lib/Base.vo
+Model/Router.vio: Model/Router.v Lib/Base.vio
+Model/Router.vos Model/Router.vok Model/Router.required_vos: Model/Router.v Lib/Base.vos
+Model/Spinner.vo Model/Spinner.glob Model/Spinner.v.beautified Model/Spinner.required_vo: Model/Spinner.v Lib/Base.vo Model/Reactor.vo Gen/Spinnertabs.vo
+Model/Spinner.vio: Model/Spinner.v Lib/Base.vio Model/Reactor.vio Gen/Spinnertabs.vio
+Model/Spinner.vos Model/Spinner.vok Model/Spinner.required_vos: Model/Spinner.v Lib/Base.vos Model/Reactor.vos Gen/Spinnertabs.vos
+Model/StreamRec.vo Model/StreamRec.glob Model/StreamRec.v.beautified Model/StreamRec.required_vo: Model/StreamRec.v Lib/Base.vo Lib/Bytestr.vo Gen/Streamtabs.vo
+Model/StreamRec.vio: Model/StreamRec.v Lib/Base.vio Lib/Bytestr.vio Gen/Streamtabs.vio
+Model/StreamRec.vos Model/StreamRec.vok Model/StreamRec.required_vos: Model/StreamRec.v Lib/Base.vos Lib/Bytestr.vos Gen/Streamtabs.vos
 Model/Suites.vo Model/Suites.glob Model/Suites.v.beautified Model/Suites.required_vo: Model/Suites.v Lib/Base.vo Lib/Sort.vo
 Model/Suites.vio: Model/Suites.v Lib/Base.vio Lib/Sort.vio
 Model/Suites.vos Model/Suites.vok Model/Suites.required_vos: Model/Suites.v Lib/Base.vos Lib/Sort.vos
+Model/Tags.vo Model/Tags.glob Model/Tags.v.beautified Model/Tags.required_vo: Model/Tags.v Lib/Base.vo
+Model/Tags.vio: Model/Tags.v Lib/Base.vio
+Model/Tags.vos Model/Tags.vok Model/Tags.required_vos: Model/Tags.v Lib/Base.vos
+Model/Utf8.vo Model/Utf8.glob Model/Utf8.v.beautified Model/Utf8.required_vo: Model/Utf8.v Lib/Base.vo
+Model/Utf8.vio: Model/Utf8.v Lib/Base.vio
+Model/Utf8.vos Model/Utf8.vok Model/Utf8.required_vos: Model/Utf8.v Lib/Base.vos
+Spec/C10.vo Spec/C10.glob Spec/C10.v.beautified Spec/C10.required_vo: Spec/C10.v Lib/Base.vo Lib/Bytestr.vo Model/StreamRec.vo
+Spec/C10.vio: Spec/C10.v Lib/Base.vio Lib/Bytestr.vio Model/StreamRec.vio
+Spec/C10.vos Spec/C10.vok Spec/C10.required_vos: Spec/C10.v Lib/Base.vos Lib/Bytestr.vos Model/StreamRec.vos
+Spec/C15.vo Spec/C15.glob Spec/C15.v.beautified Spec/C15.required_vo: Spec/C15.v Lib/Base.vo Lib/Sort.vo Model/Reactor.vo Model/Spinner.vo
+Spec/C15.vio: Spec/C15.v Lib/Base.vio Lib/Sort.vio Model/Reactor.vio Model/Spinner.vio
+Spec/C15.vos Spec/C15.vok Spec/C15.required_vos: Spec/C15.v Lib/Base.vos Lib/Sort.vos Model/Reactor.vos Model/Spinner.vos
+Spec/C17.vo Spec/C17.glob Spec/C17.v.beautified Spec/C17.required_vo: Spec/C17.v Lib/Base.vo Model/Tags.vo
+Spec/C17.vio: Spec/C17.v Lib/Base.vio Model/Tags.vio
+Spec/C17.vos Spec/C17.vok Spec/C17.required_vos: Spec/C17.v Lib/Base.vos Model/Tags.vos
+Spec/C18.vo Spec/C18.glob Spec/C18.v.beautified Spec/C18.required_vo: Spec/C18.v Lib/Base.vo Model/Router.vo
+Spec/C18.vio: Spec/C18.v Lib/Base.vio Model/Router.vio
+Spec/C18.vos Spec/C18.vok Spec/C18.required_vos: Spec/C18.v Lib/Base.vos Model/Router.vos
 Spec/C19.vo Spec/C19.glob Spec/C19.v.beautified Spec/C19.required_vo: Spec/C19.v Lib/Base.vo Lib/Sort.vo Model/Suites.vo
 Spec/C19.vio: Spec/C19.v Lib/Base.vio Lib/Sort.vio Model/Suites.vio
 Spec/C19.vos Spec/C19.vok Spec/C19.required_vos: Spec/C19.v Lib/Base.vos Lib/Sort.vos Model/Suites.vos
+Corr/C10.vo Corr/C10.glob Corr/C10.v.beautified Corr/C10.required_vo: Corr/C10.v Lib/Base.vo Lib/Bytestr.vo Model/StreamRec.vo Spec/C10.vo
+Corr/C10.vio: Corr/C10.v Lib/Base.vio Lib/Bytestr.vio Model/StreamRec.vio Spec/C10.vio
+Corr/C10.vos Corr/C10.vok Corr/C10.required_vos: Corr/C10.v Lib/Base.vos Lib/Bytestr.vos Model/StreamRec.vos Spec/C10.vos
+Corr/C15.vo Corr/C15.glob Corr/C15.v.beautified Corr/C15.required_vo: Corr/C15.v Lib/Base.vo Lib/Sort.vo Model/Reactor.vo Model/Spinner.vo Gen/Spinnertabs.vo Spec/C15.vo
+Corr/C15.vio: Corr/C15.v Lib/Base.vio Lib/Sort.vio Model/Reactor.vio Model/Spinner.vio Gen/Spinnertabs.vio Spec/C15.vio
+Corr/C15.vos Corr/C15.vok Corr/C15.required_vos: Corr/C15.v Lib/Base.vos Lib/Sort.vos Model/Reactor.vos Model/Spinner.vos Gen/Spinnertabs.vos Spec/C15.vos
+Corr/C17.vo Corr/C17.glob Corr/C17.v.beautified Corr/C17.required_vo: Corr/C17.v Lib/Base.vo Model/Tags.vo Spec/C17.vo
+Corr/C17.vio: Corr/C17.v Lib/Base.vio Model/Tags.vio Spec/C17.vio
+Corr/C17.vos Corr/C17.vok Corr/C17.required_vos: Corr/C17.v Lib/Base.vos Model/Tags.vos Spec/C17.vos
+Corr/C18.vo Corr/C18.glob Corr/C18.v.beautified Corr/C18.required_vo: Corr/C18.v Lib/Base.vo Model/Router.vo Spec/C18.vo
+Corr/C18.vio: Corr/C18.v Lib/Base.vio Model/Router.vio Spec/C18.vio
+Corr/C18.vos Corr/C18.vok Corr/C18.required_vos: Corr/C18.v Lib/Base.vos Model/Router.vos Spec/C18.vos
 Corr/C19.vo Corr/C19.glob Corr/C19.v.beautified Corr/C19.required_vo: Corr/C19.v Lib/Base.vo Lib/Sort.vo Model/Suites.vo Spec/C19.vo
 Corr/C19.vio: Corr/C19.v Lib/Base.vio Lib/Sort.vio Model/Suites.vio Spec/C19.vio
 Corr/C19.vos Corr/C19.vok Corr/C19.required_vos: Corr/C19.v Lib/Base.vos Lib/Sort.vos Model/Suites.vos Spec/C19.vos
+Proof/C10.vo Proof/C10.glob Proof/C10.v.beautified Proof/C10.required_vo: Proof/C10.v Lib/Base.vo Lib/Bytestr.vo Model/StreamRec.vo Spec/C10.vo Corr/C10.vo
+Proof/C10.vio: Proof/C10.v Lib/Base.vio Lib/Bytestr.vio Model/StreamRec.vio Spec/C10.vio Corr/C10.vio
+Proof/C10.vos Proof/C10.vok Proof/C10.required_vos: Proof/C10.v Lib/Base.vos Lib/Bytestr.vos Model/StreamRec.vos Spec/C10.vos Corr/C10.vos
+Proof/C15.vo Proof/C15.glob Proof/C15.v.beautified Proof/C15.required_vo: Proof/C15.v Lib/Base.vo Lib/Sort.vo Model/Reactor.vo Model/Spinner.vo Gen/Spinnertabs.vo Spec/C15.vo Corr/C15.vo
+Proof/C15.vio: Proof/C15.v Lib/Base.vio Lib/Sort.vio Model/Reactor.vio Model/Spinner.vio Gen/Spinnertabs.vio Spec/C15.vio Corr/C15.vio
+Proof/C15.vos Proof/C15.vok Proof/C15.required_vos: Proof/C15.v Lib/Base.vos Lib/Sort.vos Model/Reactor.vos Model/Spinner.vos Gen/Spinnertabs.vos Spec/C15.vos Corr/C15.vos
+Proof/C17.vo Proof/C17.glob Proof/C17.v.beautified Proof/C17.required_vo: Proof/C17.v Lib/Base.vo Model/Tags.vo Spec/C17.vo Corr/C17.vo
+Proof/C17.vio: Proof/C17.v Lib/Base.vio Model/Tags.vio Spec/C17.vio Corr/C17.vio
+Proof/C17.vos Proof/C17.vok Proof/C17.required_vos: Proof/C17.v Lib/Base.vos Model/Tags.vos Spec/C17.vos Corr/C17.vos
+Proof/C18.vo Proof/C18.glob Proof/C18.v.beautified Proof/C18.required_vo: Proof/C18.v Lib/Base.vo Model/Router.vo Spec/C18.vo Corr/C18.vo
+Proof/C18.vio: Proof/C18.v Lib/Base.vio Model/Router.vio Spec/C18.vio Corr/C18.vio
+Proof/C18.vos Proof/C18.vok Proof/C18.required_vos: Proof/C18.v Lib/Base.vos Model/Router.vos Spec/C18.vos Corr/C18.vos
 Proof/C19.vo Proof/C19.glob Proof/C19.v.beautified Proof/C19.required_vo: Proof/C19.v Lib/Base.vo Lib/Sort.vo Model/Suites.vo Spec/C19.vo Corr/C19.vo
 Proof/C19.vio: Proof/C19.v Lib/Base.vio Lib/Sort.vio Model/Suites.vio Spec/C19.vio Corr/C19.vio
 Proof/C19.vos Proof/C19.vok Proof/C19.required_vos: Proof/C19.v Lib/Base.vos Lib/Sort.vos Model/Suites.vos Spec/C19.vos Corr/C19.vos
+Props/C10.vo Props/C10.glob Props/C10.v.beautified Props/C10.required_vo: Props/C10.v Lib/Base.vo Lib/Bytestr.vo Model/StreamRec.vo Spec/C10.vo Corr/C10.vo Proof/C10.vo
+Props/C10.vio: Props/C10.v Lib/Base.vio Lib/Bytestr.vio Model/StreamRec.vio Spec/C10.vio Corr/C10.vio Proof/C10.vio
+Props/C10.vos Props/C10.vok Props/C10.required_vos: Props/C10.v Lib/Base.vos Lib/Bytestr.vos Model/StreamRec.vos Spec/C10.vos Corr/C10.vos Proof/C10.vos
+Props/C15.vo Props/C15.glob Props/C15.v.beautified Props/C15.required_vo: Props/C15.v Lib/Base.vo Lib/Sort.vo Model/Reactor.vo Model/Spinner.vo Gen/Spinnertabs.vo Spec/C15.vo Corr/C15.vo Proof/C15.vo
+Props/C15.vio: Props/C15.v Lib/Base.vio Lib/Sort.vio Model/Reactor.vio Model/Spinner.vio Gen/Spinnertabs.vio Spec/C15.vio Corr/C15.vio Proof/C15.vio
+Props/C15.vos Props/C15.vok Props/C15.required_vos: Props/C15.v Lib/Base.vos Lib/Sort.vos Model/Reactor.vos Model/Spinner.vos Gen/Spinnertabs.vos Spec/C15.vos Corr/C15.vos Proof/C15.vos
+Props/C17.vo Props/C17.glob Props/C17.v.beautified Props/C17.required_vo: Props/C17.v Lib/Base.vo Model/Tags.vo Spec/C17.vo Corr/C17.vo Proof/C17.vo
+Props/C17.vio: Props/C17.v Lib/Base.vio Model/Tags.vio Spec/C17.vio Corr/C17.vio Proof/C17.vio
+Props/C17.vos Props/C17.vok Props/C17.required_vos: Props/C17.v Lib/Base.vos Model/Tags.vos Spec/C17.vos Corr/C17.vos Proof/C17.vos
+Props/C18.vo Props/C18.glob Props/C18.v.beautified Props/C18.required_vo: Props/C18.v Lib/Base.vo Model/Router.vo Spec/C18.vo Corr/C18.vo Proof/C18.vo
+Props/C18.vio: Props/C18.v Lib/Base.vio Model/Router.vio Spec/C18.vio Corr/C18.vio Proof/C18.vio
+Props/C18.vos Props/C18.vok Props/C18.required_vos: Props/C18.v Lib/Base.vos Model/Router.vos Spec/C18.vos Corr/C18.vos Proof/C18.vos
 Props/C19.vo Props/C19.glob Props/C19.v.beautified Props/C19.required_vo: Props/C19.v Lib/Base.vo Lib/Sort.vo Model/Suites.vo Spec/C19.vo Corr/C19.vo Proof/C19.vo
 Props/C19.vio: Props/C19.v Lib/Base.vio Lib/Sort.vio Model/Suites.vio Spec/C19.vio Corr/C19.vio Proof/C19.vio
 Props/C19.vos Props/C19.vok Props/C19.required_vos: Props/C19.v Lib/Base.vos Lib/Sort.vos Model/Suites.vos Spec/C19.vos Corr/C19.vos Proof/C19.vos
